@@ -25,6 +25,31 @@ SearchFails(e) ==
             \cup (IF IsOk(exp) /\ IsOk(e.out) /\ exp.ok # e.out.ok THEN {"least_solution"} ELSE {})
             \cup (IF IsErr(exp) /\ IsErr(e.out) /\ exp # e.out THEN {"error_payload"} ELSE {})
 
+\* op "search_trace": out.asked = the interval lengths the implementation asked the workload about, in order -- the
+\* iteration it actually ran.  It must be a run of the machine of MCFixedPoint: start at 1; the next assumed response
+\* time is (least t with S(t) >= W(current)) - offset, which, S being monotone and 1-Lipschitz, is characterised by
+\* S(t) >= w /\ S(t - 1) < w; stop with Ok as soon as that value no longer exceeds the current one, with Err as soon as
+\* it exceeds the limit.  (That such a run ends in Lfp is the theorem model-checked in MCFixedPoint.)
+SearchTraceFails(e) ==
+    IF "asked" \notin DOMAIN e.out THEN {"returns"}
+    ELSE LET a == e.out.asked
+             n == Len(a)
+             off == e.in.off
+             lim == e.in.lim
+             W(x) == TabW(e.in.w, x)
+             S(t) == AnySbf(e.in.supply, t)
+             IsInverse(t, dm) == t >= 0 /\ S(t) >= dm /\ (t = 0 \/ S(t - 1) < dm)
+             res == e.out.res
+         IN (IF n >= 1 /\ a[1] = 1 THEN {} ELSE {"starts_at_one"})
+            \cup (IF \A i \in 1..(n - 1) : a[i] <= lim /\ a[i + 1] > a[i] /\ IsInverse(a[i + 1] + off, W(a[i]))
+                  THEN {} ELSE {"each_iterate_is_the_supply_inverse_of_the_workload"})
+            \cup (IF n = 0 THEN {}
+                  ELSE IF IsOk(res)
+                       THEN (IF a[n] <= lim /\ res.ok <= a[n] /\ IsInverse(res.ok + off, W(a[n])) THEN {} ELSE {"stops_at_the_first_non_increase"})
+                       ELSE (IF a[n] <= lim /\ S(off + lim) < W(a[n]) THEN {} ELSE {"gives_up_only_beyond_the_limit"}))
+            \cup (LET exp == SearchExpected(e.in)
+                  IN IF IsOk(exp) = IsOk(res) /\ (IsOk(exp) => exp.ok = res.ok) THEN {} ELSE {"least_solution"})
+
 MaxRtFails(e) ==
     IF "panic" \in DOMAIN e.out \/ "hang" \in DOMAIN e.out THEN {"returns"}
     ELSE IF e.out = MaxResponseTime(e.in.rs) THEN {} ELSE {"first_error_else_max"}
